@@ -15,7 +15,7 @@ CLS = "Polyhedron"
 HEADER_RE = r"Polyhedron_(inlines|templates|chdims_templates)\.hh"
 ANCHOR = ("select_H79_constraints", 3)
 MIN_REQ = 15
-DISCARDS = ("clear_generators_up_to_date", "clear_constraints_up_to_date")
+DISCARDS = ("clear_generators_up_to_date", "clear_constraints_up_to_date", "clear_constraints_minimized", "clear_generators_minimized")
 # preconditions a worker relies on without asserting them (stated here, discharged at its call sites)
 IMPLICIT_REQ = {
     # collapsing an object of positive dimension to the zero-dimensional universe asserts that it is
@@ -26,6 +26,8 @@ IMPLICIT_REQ = {
     # description must be complete at that point, or the value of the object changes
     ("clear_generators_up_to_date", 0): [("this", "CU", True), ("this", "PG", False), ("this", "PC", False)],
     ("clear_constraints_up_to_date", 0): [("this", "GU", True), ("this", "PC", False), ("this", "PG", False)],
+    ("clear_constraints_minimized", 0): [("this", "PC", False), ("this", "PG", False)],
+    ("clear_generators_minimized", 0): [("this", "PC", False), ("this", "PG", False)],
 }
 
 # predicate -> (atom, value when the predicate is true)
